@@ -105,6 +105,22 @@ func (tr *Tracer) loadCell(st *state, addr *Sym, t types.Type) *Sym {
 			return &Sym{Kind: KStruct, Args: args, Typ: t}
 		}
 	}
+	// whole array (a literal table) whose elements are known?
+	if at, ok := t.Underlying().(*types.Array); ok && at.Len() > 0 && at.Len() <= 8 {
+		args := make([]*Sym, at.Len())
+		all := true
+		for i := range args {
+			ia := &Sym{Kind: KIndexAddr, Args: []*Sym{addr, symInt(int64(i), types.Typ[types.Int])}, Typ: types.NewPointer(at.Elem())}
+			if c, ok := st.store[ia.Key()]; ok && c.val != nil {
+				args[i] = c.val
+			} else {
+				all = false
+			}
+		}
+		if all {
+			return &Sym{Kind: KStruct, Args: args, Typ: t}
+		}
+	}
 	var v *Sym
 	if addr.root().Kind == KAlloc && addr.Kind != KIndexAddr && !tr.allocHasUnknownContent(addr.root()) && !st.dirty[addr.root().ID] {
 		// fresh allocation: zero value
